@@ -56,6 +56,10 @@ def _payload(a):
     if "fill" in a:
         n, b = a["fill"].split(":")
         p += bytes([int(b) % 256]) * int(n)
+    if "invgen" in a:
+        n, base = (int(x) for x in a["invgen"].split(":"))
+        cnt = bytes([n]) if n < 0xfd else (b"\xfd" + n.to_bytes(2, "little") if n < 0x10000 else b"\xfe" + n.to_bytes(4, "little"))
+        p += cnt + b"".join(b"\x01\x00\x00\x00" + (base + i).to_bytes(8, "little") + bytes(24) for i in range(n))
     if "tail" in a and a["tail"] != "-":
         p += bytes.fromhex(a["tail"])
     return p
@@ -619,3 +623,41 @@ def nontrivial_c16(script):
 def nontrivial(script):
     ops = [brv.op_part(l).split(" ", 1)[0] for l in script]
     return len(script) >= 5 and ("msg" in ops or "ext" in ops or "raw" in ops)
+
+
+# --------------------------------------------------------------------------------------------
+# C06, the glue between the wire and the tx manager for long inventories (monitor only: the model's association
+# lists make 50000-entry inventories too slow for the driver)
+
+def monitor_c06_inv(script):
+    hits = []
+    requested = set()
+    for line in script[1:]:
+        op = brv.op_part(line)
+        verb, a = _kv(op)
+        o, raw, _ = _obs(line)
+        if verb != "msg" or a.get("cmd") != "inv" or "invgen" not in a:
+            continue
+        if "crash" in raw:
+            hits.append(("crash-on-long-inventory", f"`{op[:60]}` aborted the process"))
+            return hits
+        n, base = (int(x) for x in a["invgen"].split(":"))
+        fresh = [i for i in range(base, base + n) if i not in requested]
+        sent = re.search(r"tx=\[([^\]]*)\]", raw)
+        counts = [int(t.split(":")[1]) for t in (sent.group(1).split(",") if sent and sent.group(1) else []) if t.startswith("getdata:")]
+        if o.get("sync") != "ok":
+            hits.append(("inventory-not-consumed", f"`{op[:60]}`: the connection did not stay in sync ({o.get('sync')})"))
+            return hits
+        if any(c > 50000 for c in counts):
+            hits.append(("getdata-too-long", f"`{op[:60]}`: a getdata with {max(counts)} items (limit 50000)"))
+        if sum(counts) != len(fresh):
+            hits.append(("announced-not-requested-once",
+                         f"`{op[:60]}`: {len(fresh)} transactions were announced for the first time but the getdata messages that "
+                         f"followed ask for {counts} = {sum(counts)} items: "
+                         + ("some are never requested from this peer although marked as requested" if sum(counts) < len(fresh) else "some are requested twice")))
+        requested.update(fresh)
+    return hits
+
+
+def nontrivial_c06_inv(script):
+    return any("invgen" in l for l in script)
